@@ -6,7 +6,7 @@
 tier=${1:-quick}; shift
 extra="$@"
 cd "$(dirname "$0")/.."
-WT=/tmp/wt/matrix
+WT=${WT:-/tmp/wt/matrix}
 git -C /repo worktree remove --force $WT 2>/dev/null
 rm -rf $WT
 git -C /repo worktree add --detach $WT HEAD >/dev/null 2>&1 || { echo "cannot create worktree"; exit 2; }
